@@ -246,8 +246,8 @@ Proof.
   2:{ apply ord_add. apply ord_add. apply ord_Dg, ord_opp, ord_half, oP. apply ord_Up, ord_opp, ord_half, oP.
       apply ord_adj, ord_Up, oW. }
   apply tri_herm in E. rewrite E.
-  assert (E1 : Dg (- half P) == - half hs) by (rewrite am_opp, (half_am Dg), DgP; reflexivity).
-  assert (E2 : Up (- half P) == - half (Up F)) by (rewrite am_opp, (half_am Up), UpP; reflexivity).
+  assert (E1 : Dg (- half P) == - half hs) by (rewrite am_opp, (half_am (f:=Dg)), DgP; reflexivity).
+  assert (E2 : Up (- half P) == - half (Up F)) by (rewrite am_opp, (half_am (f:=Up)), UpP; reflexivity).
   rewrite E1, E2, adj_opp. non_commutative_ring.
 Qed.
 
@@ -299,9 +299,92 @@ Lemma P_full : P == F.
 Proof. rewrite eP'. rewrite hs_full. apply full_of_herm. exact F_herm. Qed.
 Lemma W_general : W == - half ((W - V) * (W + V)).
 Proof.
-  rewrite W_form at 1. rewrite hs_full, <- half_adj, <- !half_add, adj_Up, F_herm.
+  rewrite W_form at 1. rewrite hs_full, half_adj, <- !half_add, adj_Up, F_herm.
   assert (E : Dg F + Up F + Lo F == F) by (symmetry; apply blk_split).
   rewrite E. unfold F. rewrite eUd', eU'. reflexivity.
+Qed.
+
+(* ------------------------------------------------------------------------------------ *)
+(** * Assembly: the hypotheses of Alg/MainAlgebra.v hold for every solution *)
+Hypothesis H0_S : Sel (Zc H) == Zc H.
+Hypothesis S_adH0 : forall x, Sel (comm (Zc H) x) == comm (Zc H) (Sel x).
+Hypothesis sylv_spec : forall y, Rp (comm (Zc H) (sylv y)) == Rp y.
+
+Lemma vh_form : VH + adj VH == Rp (- sylv arg) * Sel (Pos H) - Sel (Pos H) * Rp (- sylv arg).
+Proof.
+  rewrite eVH, adj_mul, Hd_h, V_anti. rewrite <- Hd_alt.
+  assert (EV : Rp (- sylv arg) == V) by (rewrite V_general, Rp_opp; reflexivity).
+  rewrite EV. non_commutative_ring.
+Qed.
+Lemma RwS_vh : Rw (Sel (VH + adj VH)) == 0.
+Proof.
+  rewrite vh_form, Sel_sub, am_sub by apply Rw_am.
+  rewrite comm_sound_l, comm_sound_r. non_commutative_ring.
+Qed.
+Lemma hB' : B == Sel (- half ((W - V) * B - adj ((W - V) * B) + Ho * (W + V) + adj (Ho * (W + V))))
+               + Sel (V * Hd + adj (V * Hd)) - Rp ((W - V) * B).
+Proof.
+  rewrite eB at 1. rewrite RwS_vh. rewrite eUdB, eA, eVH, eUd', eU'. non_commutative_ring.
+Qed.
+Lemma hX' : X == B + Ho + Ho * (W + V).
+Proof. rewrite eX at 1. rewrite eA, eU'. reflexivity. Qed.
+Lemma Syy : Sel yy == Sel (VH + adj VH).
+Proof. unfold yy. rewrite eVH. eapply SXherm; [exact Ho_S | exact hX' | exact hB']. Qed.
+Lemma hY' : Y == half (adj X + X).
+Proof. rewrite Y_general, Syy, RwS_vh. fold yy. non_commutative_ring. Qed.
+Lemma hV' : V == - Rp (sylv (Y - V * Hd - adj (V * Hd))).
+Proof. rewrite V_general at 1. unfold arg. rewrite eVH. reflexivity. Qed.
+Ltac facts := first [exact H0_S | exact Hd_S | exact Ho_S | exact H0_h | exact Hd_h | exact Ho_h | exact S_adH0
+  | exact sylv_spec | exact oW | exact oV | exact W_herm | exact V_anti | exact W_general | exact hY' | exact hV'
+  | exact hX' | exact hB' | exact sylv_P ].
+Lemma hHt' : sol "H_tilde" == Zc H + Sel (Hd + half (Ho * (W + V) + adj (Ho * (W + V)))
+                                          - half ((W - V) * B + adj ((W - V) * B)) - Y).
+Proof. rewrite eHt. rewrite eA, eUdB, eUd', eU'. reflexivity. Qed.
+
+Let Ufull := sol "U".  Let Udfull := sol "U†".  Let Htl := sol "H_tilde".
+
+Theorem main_unitary_l : Udfull * Ufull == 1.
+Proof.
+  unfold Udfull, Ufull. rewrite eU, eUd, eU', eUd'.
+  eapply unitary. exact W_general.
+Qed.
+Theorem main_unitary_r : Ufull * Udfull == 1.
+Proof.
+  unfold Udfull, Ufull. rewrite eU, eUd, eU', eUd'.
+  eapply unitary_r; facts.
+Qed.
+Theorem main_adjoint : adj Ufull == Udfull.
+Proof.
+  unfold Udfull, Ufull. rewrite eU, eUd, eU', eUd'.
+  rewrite adj_add, adj_one, adj_add, W_herm, V_anti. non_commutative_ring.
+Qed.
+Theorem main_kept : Sel (Udfull * H * Ufull) == Htl.
+Proof.
+  unfold Udfull, Ufull, Htl. rewrite eU, eUd, eU', eUd'. rewrite H_split at 1.
+  eapply kept; first [exact hHt' | facts].
+Qed.
+Theorem main_eliminated : Rp (Udfull * H * Ufull) == 0.
+Proof.
+  unfold Udfull, Ufull. rewrite eU, eUd, eU', eUd'. rewrite H_split at 1.
+  eapply eliminated; facts.
+Qed.
+Theorem main_Ht_herm : adj Htl == Htl.
+Proof.
+  rewrite <- main_kept, <- Sel_adj, !adj_mul, H_herm, main_adjoint.
+  rewrite <- main_adjoint, adj_inv. apply am_P. non_commutative_ring.
+Qed.
+(* gauge: the anti-Hermitian part of U - 1 has no kept element *)
+Theorem main_gauge : Sel (half ((Ufull - 1) - adj (Ufull - 1))) == 0.
+Proof.
+  unfold Ufull. rewrite eU, eU'.
+  assert (E : 1 + (W + V) - 1 - adj (1 + (W + V) - 1) == V + V).
+  { assert (E0 : 1 + (W + V) - 1 == W + V) by non_commutative_ring.
+    rewrite E0, adj_add, W_herm, V_anti. non_commutative_ring. }
+  rewrite E, half_twice. rewrite hV'. rewrite Sel_opp, Sel_Rp. non_commutative_ring.
+Qed.
+Theorem main_X_commutator : X == comm (W + V) (Zc H + Hd).
+Proof.
+  eapply X_is_commutator; facts.
 Qed.
 
 End Common.
